@@ -317,7 +317,27 @@ def rand_base(r):
   return s
 
 
+HARMLESS_DUNDERS = ('__call__', '__len__', '__enter__')
+
+
+def _safe_name(n):
+  """Python's own special names (object construction, attribute access, class creation, ...: __new__,
+  __getattribute__, __slots__, __class__, __eq__, __hash__, __del__ ...) are all-lower-case __x__ words.  An interface
+  member of such a name changes what 'an instance of the interface' means and is not a method the property talks
+  about, so a generated all-lower-case __x__ name gets a capital letter; a few harmless ones are kept."""
+  if len(n) > 4 and n.startswith('__') and n.endswith('__') and n not in HARMLESS_DUNDERS:
+    core = n.strip('_')
+    if core and core == core.lower() and core.replace('_', '').isalpha() and core.isascii():
+      i = n.index(core)
+      return n[:i] + core[0].upper() + core[1:] + n[i + len(core):]
+  return n
+
+
 def rand_name(r):
+  return _safe_name(_rand_name(r))
+
+
+def _rand_name(r):
   b = rand_base(r)
   k = r.random()
   if k < 0.45:
@@ -1259,8 +1279,17 @@ def call_pairs(case, obs):
   return out
 
 
+def in_domain(case):
+  """False for a (hand-made or old) proxy case whose interface defines one of Python's own special names: such a class
+  is not an interface the property talks about (see _safe_name); the generator never produces one."""
+  return all(m['attr'] == '__init__' or _safe_name(m['attr']) == m['attr']
+             for c in case.get('classes', []) for m in c['members'])
+
+
 def monitor_proxy(case, obs):
   v = []
+  if not in_domain(case):
+    return v
   if obs.get('ctor') != 'ok':
     return [('proxy-construction-failed', 'building/instantiating the client raised %s' % obs.get('ctor'))]
   if not obs.get('isinstance', True):
@@ -1505,7 +1534,7 @@ def _pobs(op, o, nm):
 
 def to_coq(case, obs):
   if case['kind'] == 'proxy':
-    if 'mro' not in obs:
+    if 'mro' not in obs or not in_domain(case):
       return None
     nm = _Names()
     ms = C.lst(['(Mem %s %s %s)' % (nm(n), k, nm(f)) for n, k, f in model_members(case, obs['mro'])])
